@@ -122,6 +122,33 @@ Fixpoint finite (s : dspec) : bool := match s with Space es => forallb finite_p 
 with finite_p (p : dpoint) : bool :=
   match p with Choices _ cands _ _ _ _ => forallb finite cands | _ => false end.
 
+(* ---- the order of decisions: lexicographic, first position most significant ---------------------- *)
+Definition list_cmp {A} (f : A -> A -> comparison) : list A -> list A -> comparison :=
+  fix go l1 l2 :=
+    match l1, l2 with
+    | [], [] => Eq | [], _ => Lt | _, [] => Gt
+    | a :: r1, b :: r2 => match f a b with Eq => go r1 r2 | c => c end
+    end.
+Fixpoint scmp (a b : sdna) {struct a} : comparison :=
+  match a, b with SSpace xs, SSpace ys => list_cmp (fun x y => pcmp x y) xs ys end
+with pcmp (x y : pdna) {struct x} : comparison :=
+  match x, y with
+  | PChoices cs, PChoices ds =>
+      list_cmp (fun c d => match Nat.compare (fst c) (fst d) with Eq => scmp (snd c) (snd d) | r => r end) cs ds
+  | PFloat f, PFloat g => Z.compare f g
+  | PCustom s, PCustom t => str_cmp s t
+  | PChoices _, _ => Lt | _, PChoices _ => Gt
+  | PFloat _, _ => Lt | _, PFloat _ => Gt
+  end.
+Definition slt (a b : sdna) : Prop := scmp a b = Lt.
+(* the element that follows the first occurrence of d *)
+Fixpoint succ_in {A} (eqb : A -> A -> bool) (l : list A) (d : A) : option A :=
+  match l with
+  | [] => None
+  | x :: r => if eqb x d then match r with [] => None | y :: _ => Some y end else succ_in eqb r d
+  end.
+Definition sdna_eqb (a b : sdna) : bool := match scmp a b with Eq => true | _ => false end.
+
 (* ---- all valid decisions, in order (the SPECIFICATION of the enumeration) -------------------- *)
 (* lexicographic product, first component most significant *)
 Definition all_prod {A} : list (list A) -> list (list A) :=
